@@ -6,7 +6,7 @@ from .engine import Unsupported, Mir
 from . import harness
 from .harness import Inconclusive, run_queries, load_known_findings, VERIF
 
-PROPS = {'C01': 'c01', 'C20': 'c20', 'C15': 'c15', 'C02': 'c02', 'C14': 'c14', 'C17': 'c17', 'C18': 'c18', 'C06': 'c06', 'C05': 'c05', 'C09': 'c09', 'C08': 'c08'}
+PROPS = {'C03': 'c03', 'C01': 'c01', 'C20': 'c20', 'C15': 'c15', 'C02': 'c02', 'C14': 'c14', 'C17': 'c17', 'C18': 'c18', 'C06': 'c06', 'C05': 'c05', 'C09': 'c09', 'C08': 'c08'}
 
 _mir_cache = {}
 def worker_mir(default_features):
